@@ -40,6 +40,8 @@ type Step struct {
 	Flags map[string]any `json:"flags,omitempty"`
 	Fault int            `json:"fault,omitempty"` // ordinal of the visible call to fail (0 = none)
 	Crash int            `json:"crash,omitempty"` // ordinal of the visible call before which the process dies
+	Expect string        `json:"expect,omitempty"` // "kind verb id" of the call the specification expects the fault to hit
+	Proc  int            `json:"proc,omitempty"`
 	// environment steps
 	Edit    *EditStep `json:"edit,omitempty"`
 	OobDel  string    `json:"oobdel,omitempty"`
@@ -101,6 +103,7 @@ func NewEnv(lib ChartLib, drv string) *Env {
 		e.mem = driver.NewMemory()
 		e.mem.SetNamespace(RelNS)
 	}
+	e.Sim.Put(simcluster.Key{Group: "", Version: "v1", Resource: "namespaces", Name: RelNS}, map[string]interface{}{"metadata": map[string]interface{}{}})
 	e.Rec = NewRecorder(e.Snapshot)
 	e.Sim.Hook = e.hook
 	return e
@@ -112,6 +115,10 @@ func (e *Env) hook(proc int, method string, key simcluster.Key, storageReq bool)
 		return 0, nil
 	}
 	if storageReq {
+		return 0, nil
+	}
+	if key.Resource == "namespaces" && method == "GET" {
+		// resource.Info.Get probes the namespace after a 404; not a call on a release resource
 		return 0, nil
 	}
 	id := key.Name
@@ -370,12 +377,15 @@ func (e *Env) RunOp(proc, i int, s Step) (res OpResult) {
 		if r := recover(); r != nil {
 			res.Err = fmt.Sprintf("PANIC: %v", r)
 		}
-		dead, _, _, _ := e.Rec.Finish(proc)
+		dead, faulted, calls, fdesc := e.Rec.Finish(proc)
 		if dead {
 			res.Err = "CRASHED"
 			return // a dead process reports nothing
 		}
-		e.Rec.Log(Event{Proc: proc, Step: i, Ev: "end", Op: s.Op, OK: res.Err == "", Err: res.Err, Info: res.Info})
+		if !faulted {
+			fdesc = ""
+		}
+		e.Rec.Log(Event{Proc: proc, Step: i, Ev: "end", Op: s.Op, OK: res.Err == "", Err: res.Err, Info: res.Info, FaultHit: fdesc, Calls: calls})
 	}()
 	f := s.Flags
 	if f == nil {
